@@ -1,8 +1,12 @@
 (* C12 model (executable definitions only).
 
-   (i)   ownership: a store maps buffer ids (positions) to buffers; an apply-type method is a
-         small program over "the object the local name Z refers to"; `exec` runs it and returns
-         the new store and the id of the result.  `safe` is the aliasing analysis.
+   (i)   ownership: a store maps buffer ids (positions) to buffers; an apply-type method (or a fit)
+         is a small program over LOCAL VARIABLES that refer to buffers (`Z`, `Z_aux`, `forecaster`,
+         the parameter of an inlined helper, ...); `exec` runs it and returns the new store and
+         the new variable binding.  `safe` is the aliasing analysis (per variable: may it still be
+         an object the caller owns? may it be the estimator's own state?).  The programs of
+         HampelFilter.transform and Imputer.transform are NOT written here: they are regenerated
+         from /repo's source on every run (translator/own_c12.py -> C12/Own.v).
    (ii)  pool: tasks, slots, a schedule = any sequence of worker picks; a task may read and write
          a shared state (pure tasks ignore it).
    (iii) seeded sampling in the style of _get_intervals over an abstract RNG stream; worlds with a
@@ -27,146 +31,147 @@ Fixpoint update (st : store) (i : nat) (b : buf) : store :=
 
 Definition alloc (st : store) (b : buf) : store * nat := (st ++ [b], length st).
 
-(* Statements of an apply-type (or fit) method, as far as ownership is concerned.  Every function
-   receives the estimator's state buffer and the contents of the object Z currently refers to. *)
-Inductive prog :=
-  | PKeep                                   (* Z = check_series(Z): the same object           *)
-  | PFresh (h : buf -> buf -> buf)          (* Z = Z.copy() / Z.fillna(..) / Z.apply(..): new  *)
-  | PWrite (g : buf -> buf -> buf)          (* Z.iloc[j] = .. / Z[col] = ..: in place         *)
-  | PSelf (g : buf -> buf -> buf)           (* self.attr = .. / self.param.fit(..)            *)
-  | PSeq (a b : prog)
-  | PIf (c : buf -> buf -> bool) (a b : prog)
-  | PLoop (n : buf -> buf -> nat) (body : prog).
+(* variable binding: local variable (a number) -> buffer id *)
+Definition env := nat -> nat.
+Definition setv (en : env) (x i : nat) : env := fun y => if Nat.eqb y x then i else en y.
 
-Fixpoint iter_exec (k : nat) (f : store -> nat -> store * nat) (st : store) (cur : nat)
-  : store * nat :=
+(* what the code can read: the contents of the objects its variables refer to *)
+Definition view (nv : nat) (st : store) (en : env) : list buf :=
+  map (fun x => get st (en x)) (seq 0 nv).
+
+(* Statements, as far as ownership is concerned.  Every function receives the estimator's state
+   buffer and the view (contents of all variables). *)
+Inductive stmt :=
+  | SSkip
+  | SAlias (x y : nat)                              (* x = y / x = check_series(y) / x = y[col]  *)
+  | SSelfRef (x : nat)                              (* x = self.attr: an object the estimator holds *)
+  | SFresh (x : nat) (h : buf -> list buf -> buf)   (* x = y.copy() / y.fillna(..) / clone(..): new *)
+  | SWrite (x : nat) (g : buf -> list buf -> buf)   (* x.iloc[j] = .. / x[col] = .. / x.fit(..)     *)
+  | SSelf (g : buf -> list buf -> buf)              (* self.attr = ..                                *)
+  | SSeq (a b : stmt)
+  | SIf (c : buf -> list buf -> bool) (a b : stmt)
+  | SLoop (n : buf -> list buf -> nat) (body : stmt).
+
+Fixpoint iter_exec (k : nat) (f : store -> env -> store * env) (st : store) (en : env)
+  : store * env :=
   match k with
-  | O => (st, cur)
-  | S k' => let '(st1, c1) := f st cur in iter_exec k' f st1 c1
+  | O => (st, en)
+  | S k' => let '(st1, en1) := f st en in iter_exec k' f st1 en1
   end.
 
-(* e = id of the estimator's state buffer, cur = id of the object Z refers to *)
-Fixpoint exec (e : nat) (p : prog) (st : store) (cur : nat) : store * nat :=
+(* nv = number of variables, e = id of the estimator's state buffer *)
+Fixpoint exec (nv e : nat) (p : stmt) (st : store) (en : env) : store * env :=
   match p with
-  | PKeep => (st, cur)
-  | PFresh h => alloc st (h (get st e) (get st cur))
-  | PWrite g => (update st cur (g (get st e) (get st cur)), cur)
-  | PSelf g => (update st e (g (get st e) (get st cur)), cur)
-  | PSeq a b => let '(st1, c1) := exec e a st cur in exec e b st1 c1
-  | PIf c a b => if c (get st e) (get st cur) then exec e a st cur else exec e b st cur
-  | PLoop n body => iter_exec (n (get st e) (get st cur)) (exec e body) st cur
+  | SSkip => (st, en)
+  | SAlias x y => (st, setv en x (en y))
+  | SSelfRef x => (st, setv en x e)
+  | SFresh x h => (st ++ [h (get st e) (view nv st en)], setv en x (length st))
+  | SWrite x g => (update st (en x) (g (get st e) (view nv st en)), en)
+  | SSelf g => (update st e (g (get st e) (view nv st en)), en)
+  | SSeq a b => let '(st1, en1) := exec nv e a st en in exec nv e b st1 en1
+  | SIf c a b => if c (get st e) (view nv st en) then exec nv e a st en else exec nv e b st en
+  | SLoop n body => iter_exec (n (get st e) (view nv st en)) (exec nv e body) st en
   end.
 
-(* apply : store -> caller's buffer id -> store * result buffer id *)
-Definition apply (e : nat) (p : prog) (st : store) (caller : nat) : store * nat :=
-  exec e p st caller.
+(* a method: its variables, its body, the variable it returns *)
+Record method := { nvars : nat; body : stmt; ret : nat }.
 
-(* Aliasing analysis.  `al` = "Z may still be the caller's object".  `self_ok` = writes to the
-   estimator's state are allowed (true for fit, false for apply-type methods).
-   Result: None = rejected; Some al' = accepted, with the flag after the statement. *)
-Fixpoint safe (self_ok : bool) (p : prog) (al : bool) : option bool :=
+(* apply : store -> caller's buffer id -> store * result buffer id.  Every variable (the data
+   argument and any other argument) starts out referring to the caller's object. *)
+Definition apply (e : nat) (m : method) (st : store) (caller : nat) : store * nat :=
+  let r := exec (nvars m) e (body m) st (fun _ => caller) in (fst r, snd r (ret m)).
+
+(* Aliasing analysis.  Per variable two flags: (may be an object that existed before the call and
+   is not the estimator's state, may be the estimator's state).  Unknown variables: (true, true).
+   `self_ok` = writes to the estimator's state are allowed (true for fit, false for apply-type
+   methods).  Result: None = rejected; Some a' = accepted, with the flags after the statement. *)
+Definition flags := list (bool * bool).
+Definition top : bool * bool := (true, true).
+Definition fl (a : flags) (x : nat) : bool * bool := nth x a top.
+
+Fixpoint setf (a : flags) (x : nat) (v : bool * bool) : flags :=
+  match a, x with
+  | [], _ => []
+  | _ :: t, O => v :: t
+  | u :: t, S j => u :: setf t j v
+  end.
+
+Definition fjoin (a b : flags) : flags :=
+  map (fun i => (fst (fl a i) || fst (fl b i), snd (fl a i) || snd (fl b i))) (seq 0 (length a)).
+
+Definition fle1 (u v : bool * bool) : bool := implb (fst u) (fst v) && implb (snd u) (snd v).
+
+Definition fle (a b : flags) : bool :=
+  Nat.eqb (length a) (length b) && forallb (fun i => fle1 (fl a i) (fl b i)) (seq 0 (length a)).
+
+Fixpoint safe (self_ok : bool) (p : stmt) (a : flags) : option flags :=
   match p with
-  | PKeep => Some al
-  | PFresh _ => Some false
-  | PWrite _ => if al then None else Some false
-  | PSelf _ => if self_ok then Some al else None
-  | PSeq a b => match safe self_ok a al with Some x => safe self_ok b x | None => None end
-  | PIf _ a b =>
-      match safe self_ok a al, safe self_ok b al with
-      | Some x, Some y => Some (x || y)
+  | SSkip => Some a
+  | SAlias x y => Some (setf a x (fl a y))
+  | SSelfRef x => Some (setf a x (false, true))
+  | SFresh x _ => Some (setf a x (false, false))
+  | SWrite x _ =>
+      if fst (fl a x) then None
+      else if snd (fl a x) && negb self_ok then None else Some a
+  | SSelf _ => if self_ok then Some a else None
+  | SSeq p1 p2 => match safe self_ok p1 a with Some a1 => safe self_ok p2 a1 | None => None end
+  | SIf _ p1 p2 =>
+      match safe self_ok p1 a, safe self_ok p2 a with
+      | Some a1, Some a2 => Some (fjoin a1 a2)
       | _, _ => None
       end
-  | PLoop _ body => match safe self_ok body al with Some _ => Some al | None => None end
+  | SLoop _ b =>
+      (* the flags at loop entry must be a loop invariant *)
+      match safe self_ok b a with
+      | Some a1 => if fle a1 a then Some a else None
+      | None => None
+      end
   end.
 
-Definition is_safe (self_ok : bool) (p : prog) : bool :=
-  match safe self_ok p true with Some _ => true | None => false end.
+Definition is_safe (self_ok : bool) (m : method) : bool :=
+  match safe self_ok (body m) (repeat top (nvars m)) with Some _ => true | None => false end.
 
-Fixpoint iter_run (k : nat) (f : buf -> buf) (x : buf) : buf :=
-  match k with
-  | O => x
-  | S k' => iter_run k' f (f x)
-  end.
-
-(* what the result holds, as a pure function of (estimator state, caller's data) - meaningful for
-   programs that do not write estimator state *)
-Fixpoint run (p : prog) (eb cb : buf) : buf :=
-  match p with
-  | PKeep => cb
-  | PFresh h => h eb cb
-  | PWrite g => g eb cb
-  | PSelf _ => cb
-  | PSeq a b => run b eb (run a eb cb)
-  | PIf c a b => if c eb cb then run a eb cb else run b eb cb
-  | PLoop n body => iter_run (n eb cb) (run body eb) cb
-  end.
-
-(* ---- the shapes the anchored transformers have (hand models of the source) ---- *)
+(* ---- generic shapes (hand-written; the anchored transformers' programs are generated) ---- *)
 
 Section Shapes.
-  Variable copy h g : buf -> buf -> buf.
-  Variable isframe retbool hasmv : buf -> buf -> bool.
-  Variable ncols nwin : buf -> buf -> nat.
+  Variable h g : buf -> list buf -> buf.
+  Variable isframe : buf -> list buf -> bool.
+  Variable ncols : buf -> list buf -> nat.
 
   (* the generic copy-first discipline: validate, then derive a new object *)
-  Definition copy_first : prog := PSeq PKeep (PFresh h).
+  Definition copy_first : method :=
+    {| nvars := 1; body := SSeq (SAlias 0 0) (SFresh 0 h); ret := 0 |}.
 
-  (* HampelFilter._transform_series: for each window: Z.iloc[j] = _compare(..)  (in place);
-     if self.return_bool: Z = Z.apply(..) *)
-  Definition hampel_series : prog :=
-    PSeq (PLoop nwin (PWrite g)) (PIf retbool (PFresh h) PKeep).
-
-  (* HampelFilter.transform as in /repo now:  Z = check_series(Z).copy();
-     DataFrame: for col in Z: Z[col] = self._transform_series(Z[col]);  else the series path *)
-  Definition hampel_now : prog :=
-    PSeq PKeep (PSeq (PFresh copy) (PIf isframe (PLoop ncols (PWrite g)) hampel_series)).
-
-  (* the OLD HampelFilter.transform:  Z = check_series(Z)  - no copy *)
-  Definition hampel_old : prog :=
-    PSeq PKeep (PIf isframe (PLoop ncols (PWrite g)) hampel_series).
+  (* fit of a transformer / forecaster: validates, derives, stores on self *)
+  Definition fit_shape : method :=
+    {| nvars := 1; body := SSeq (SAlias 0 0) (SSeq (SFresh 0 h) (SSelf g)); ret := 0 |}.
 
   (* a transformer that caches something on self during transform and reads it next time *)
-  Definition caches_on_self : prog := PSeq PKeep (PSeq (PFresh h) (PSelf g)).
+  Definition caches_on_self : method :=
+    {| nvars := 1; body := SSeq (SFresh 0 h) (SSelf g); ret := 0 |}.
+
+  (* HISTORICAL shapes of defects repaired in /repo (kept only as negative witnesses):
+     HampelFilter.transform without the copy;  Imputer(method="random") writing `Z[col] = ..` into
+     the validated input;  Imputer(method="forecaster") fitting `self.forecaster` itself *)
+  Definition old_inplace_loop : method :=
+    {| nvars := 1; body := SSeq (SAlias 0 0) (SLoop ncols (SWrite 0 g)); ret := 0 |}.
+  Definition old_random_frame : method :=
+    {| nvars := 1;
+       body := SSeq (SAlias 0 0)
+                 (SSeq (SIf isframe (SLoop ncols (SWrite 0 g)) (SFresh 0 h)) (SFresh 0 h));
+       ret := 0 |}.
+  Definition old_fits_own_param : method :=
+    {| nvars := 2;
+       body := SSeq (SSelfRef 1) (SSeq (SFresh 0 h) (SSeq (SWrite 1 g) (SFresh 0 h)));
+       ret := 0 |}.
 End Shapes.
 
-(* Imputer.transform, by method and container *)
-Inductive imethod := MRandom | MConstant | MFill | MDrift | MForecaster | MMean | MMedian | MInterp.
-
-Section Imputer.
-  Variable h g fitg : buf -> buf -> buf.
-  Variable hasmv : buf -> buf -> bool.
-  Variable ncols : buf -> buf -> nat.
-
-  Definition imputer_branch (m : imethod) (frame : bool) : prog :=
-    match m with
-    | MRandom =>
-        if frame then PLoop ncols (PWrite g)      (* for col in Z: Z[col] = Z[col].apply(..) *)
-        else PFresh h                             (* Z = Z.apply(..)                         *)
-    | MDrift =>                                   (* a local PolynomialTrendForecaster       *)
-        PSeq (PFresh h)                           (* Z = Z.fillna(ffill).fillna(backfill)    *)
-             (if frame then PLoop ncols (PWrite g) else PFresh h)
-    | MForecaster =>                              (* forecaster = self.forecaster; .fit(..)  *)
-        PSeq (PFresh h)
-             (if frame then PLoop ncols (PSeq (PSelf fitg) (PWrite g))
-              else PSeq (PSelf fitg) (PFresh h))
-    | _ => PFresh h                               (* Z = Z.fillna(..) / Z.interpolate(..)    *)
-    end.
-
-  (* Z = check_series(Z); if self.missing_values: Z = Z.replace(..); <branch>;
-     Z = Z.fillna(ffill).fillna(backfill) *)
-  Definition imputer (m : imethod) (frame : bool) : prog :=
-    PSeq PKeep (PSeq (PIf hasmv (PFresh h) PKeep) (PSeq (imputer_branch m frame) (PFresh h))).
-End Imputer.
-
-(* a history of apply-type calls on one estimator: (program, caller's buffer id) *)
-Fixpoint play (e : nat) (hs : list (prog * nat)) (st : store) : store :=
+(* a history of apply-type calls on one estimator: (method, caller's buffer id) *)
+Fixpoint play (e : nat) (hs : list (method * nat)) (st : store) : store :=
   match hs with
   | [] => st
-  | (q, c) :: t => play e t (fst (exec e q st c))
+  | (q, c) :: t => play e t (fst (apply e q st c))
   end.
-
-(* fit of a transformer / forecaster: validates, derives, stores on self *)
-Definition fit_shape (h g : buf -> buf -> buf) : prog := PSeq PKeep (PSeq (PFresh h) (PSelf g)).
 
 (* ================================================================================ (ii) *)
 
